@@ -374,6 +374,21 @@ def run_unit(unit, tier):
                     one(build_hunk(mixed, None, so, so, False, None, b'y') +
                         [b'tail'], True, True)
         from mc.alphabets import BOUNDARY_SIZES_Q
+        # bodies at buffer-boundary and larger line counts (lock files,
+        # generated sources): one-sided, context-only and mixed hunks
+        big = [12000, 20000, 50000, 100000]
+        if tier != 'quick':
+            big += [300000, 1000000]
+        for blen in BOUNDARY_SIZES_Q + big:
+            for tok in ('D', 'I', 'C', 'CDI', 'CCCDICCC'):
+                body = (tok * blen)[:blen]
+                for explicit in (True, False):
+                    one(build_hunk(body, None, 1 if tok != 'I' else 0,
+                                   1 if tok != 'D' else 0, explicit, None,
+                                   b'z'), False, True)
+                one(build_hunk(body, blen - 1, 7, 9, True, None, b'z') +
+                    [b'@@ -%d,1 +%d,1 @@' % (blen + 100, blen + 100),
+                     b' after'], True, True)
         for n in BOUNDARY_SIZES_Q + [100000]:
             long_ = b'y' * n
             for ig in (False, True):
@@ -388,7 +403,8 @@ def run_unit(unit, tier):
                 one([b'@@ -10,3 +10,3 @@', b' ctx',
                      b'@@ -20 +20 @@ ' + long_], ig, True)
                 one([long_, b'@@ -1 +1 @@', b'-a', b'+b', long_], ig, True)
-        acc.sample({'scale': 'up to 3000 hunks, bodies up to 10000 lines, '
+        acc.sample({'scale': 'up to 3000 hunks, bodies up to 100000 (thorough 1000000) '
+                             'lines at every boundary size, '
                              'start lines up to 2**63'}, 1)
     else:
         for n in (0, 1):
